@@ -149,7 +149,7 @@ def fam_keys(seed, tier):
     rnd = random.Random(seed)
     for c in CURVES if tier == "thorough" else ["NIST192p", "NIST256p", "NIST521p", "SECP256k1", "BRAINPOOLP256r1", "SECP112r1"]:
         yield dict(curve=c, seed=rnd.randrange(1 << 30), mode="roundtrip")
-        yield dict(curve=c, seed=rnd.randrange(1 << 30), mode="damage")
+        yield dict(curve=c, seed=rnd.randrange(1 << 30), mode="damage", explicit=(tier == "thorough" or c in ("NIST192p", "NIST256p")))
     for c in CURVES:        # every curve in every tier: private scalars written WITHOUT their leading zero bytes (as older
         yield dict(curve=c, seed=rnd.randrange(1 << 30), mode="short-scalars")   # OpenSSL / other libraries emit them)
 
@@ -239,14 +239,21 @@ def key_encodings(vc):
             if K.SigningKey.from_string(sk.to_string(), curve).to_string() != sk.to_string():
                 bad.append(("sk-raw", d))
         else:
+            explicit_too = vc.inputs.get("explicit", False) and d == scalars[0]     # explicit parameters: slow to decode
             for what, blob, dec, ref in (("vk-der", vk.to_der(), K.VerifyingKey.from_der, vk.to_string()),
                                          ("sk-der", sk.to_der(), K.SigningKey.from_der, sk.to_string()),
+                                         ("sk-der-pkcs8", sk.to_der(format="pkcs8"), K.SigningKey.from_der, sk.to_string()),
+                                         ("sk-der-explicit", sk.to_der(curve_parameters_encoding="explicit"), K.SigningKey.from_der, sk.to_string()),
+                                         ("vk-der-explicit-compressed", vk.to_der("compressed", "explicit"), K.VerifyingKey.from_der, vk.to_string()),
+                                         ("point-compressed", vk.to_string("compressed"), lambda b: K.VerifyingKey.from_string(b, curve), vk.to_string()),
                                          ("point", vk.to_string("uncompressed"), lambda b: K.VerifyingKey.from_string(b, curve), vk.to_string())):
+                if "explicit" in what and not explicit_too:
+                    continue
                 for cut in range(len(blob)):
                     vc.tick()
                     try:
                         got = dec(blob[:cut])
-                        if what != "point" or got.to_string() != ref:
+                        if not what.startswith("point") or got.to_string() != ref:
                             bad.append((what, "truncation accepted", cut, d))
                     except allowed:
                         pass
@@ -261,15 +268,21 @@ def key_encodings(vc):
                     pass
                 except Exception as e:
                     bad.append((what, "extension", type(e).__name__))
-                for pos in range(0, len(blob), 3):
-                    vc.tick()
-                    mut = blob[:pos] + bytes([blob[pos] ^ 0x55]) + blob[pos + 1:]
-                    try:
-                        dec(mut)
-                    except allowed:
-                        pass
-                    except Exception as e:
-                        bad.append((what, "mutation", pos, type(e).__name__, str(e)[:40]))
+                # every byte of the structural part (everything up to the key material) and every 3rd byte after it, each
+                # replaced by: all bits of a pattern flipped, 00, FF, +1, -1, +2, -2, +6 (version / tag / length fields move to the next
+                # legal and illegal values)
+                # (explicit parameters are structure throughout: every byte)
+                for pos in (range(len(blob)) if "explicit" in what else list(range(0, min(len(blob), 40))) + list(range(40, len(blob), 3))):
+                    for new in {blob[pos] ^ 0x55, 0x00, 0xFF, (blob[pos] + 1) & 0xFF, (blob[pos] - 1) & 0xFF, (blob[pos] + 2) & 0xFF,
+                                (blob[pos] - 2) & 0xFF, (blob[pos] + 6) & 0xFF} - {blob[pos]}:
+                        vc.tick()
+                        mut = blob[:pos] + bytes([new]) + blob[pos + 1:]
+                        try:
+                            dec(mut)
+                        except allowed:
+                            pass
+                        except Exception as e:
+                            bad.append((what, "mutation", pos, new, type(e).__name__, str(e)[:40]))
     vc.prove("encodings[%s]" % vc._get("mode"), not bad, repr(bad[:4]))
 
 
@@ -795,6 +808,10 @@ def der_containers(vc):
     vc.prove("bitstring.inverse", out.returned and vc.And(out.value[0] == c, out.value[1] == rest), repr(out.exc))
     bad = vc.call(M.remove_bitstring, vc.cat(bits, rest), 1)
     vc.prove("bitstring.other-unused-count-refused", bad.raised(M.UnexpectedDER), repr(bad.exc))
+    # an EMPTY input (what is left when a damaged length field swallowed the next element) is a DER error for every decoder
+    for fn in ("remove_octet_string", "remove_sequence", "remove_constructed", "remove_integer", "remove_object", "remove_bitstring"):
+        o = vc.call(getattr(M, fn), b"", *([0] if fn == "remove_bitstring" else []))
+        vc.ground("%s(empty)=>UnexpectedDER" % fn, o.raised(M.UnexpectedDER), repr(o.exc))
     vc.cover("containers")
 
 
@@ -992,3 +1009,31 @@ def curve_parameters(vc):
     if not o.raised(ValueError):
         bad.append(("unknown form accepted by to_der", repr(o.exc)))
     vc.prove("curve-parameter-encodings", not bad, repr(bad[:4]))
+
+
+# crafted explicit parameters (a "prime" that is a prime square) reach the same square root: refused with a documented error
+@proof("C19/explicit-parameters.non-prime-field-refused", functions=[("register_crypto_plugin.ecdsa.curves", "Curve.from_der"),
+                                                                      (KEYS, "VerifyingKey.from_der")],
+       family=lambda seed, tier: [dict(p=p) for p in (9, 15, 21, 25, 33, 35, 49, 289, 65, 85, 1105, 341 * 3)], bounded_only=True)
+def explicit_nonprime(vc):
+    K = vc.module(KEYS)
+    C = vc.module("register_crypto_plugin.ecdsa.curves")
+    D = vc.module(DER)
+    ERR = vc.module("register_crypto_plugin.ecdsa.errors")
+    p = vc._get("p")
+    L = (p.bit_length() + 7) // 8
+    allowed = (D.UnexpectedDER, ERR.MalformedPointError, ValueError, C.UnknownCurveError)
+    bad = []
+    for a_, b_, x in ((0, 1, 2), (1, 1, 3), (p - 3, 2, 5)):
+        for pre in (b"\x02", b"\x03"):
+            vc.tick()
+            field = D.encode_sequence(D.encode_oid(1, 2, 840, 10045, 1, 1), D.encode_integer(p))
+            curve = D.encode_sequence(D.encode_octet_string((a_ % p).to_bytes(L, "big")), D.encode_octet_string((b_ % p).to_bytes(L, "big")))
+            params = D.encode_sequence(D.encode_integer(1), field, curve, D.encode_octet_string(pre + (x % p).to_bytes(L, "big")),
+                                       D.encode_integer(7), D.encode_integer(1))
+            spki = D.encode_sequence(D.encode_sequence(D.encode_oid(1, 2, 840, 10045, 2, 1), params), D.encode_bitstring(pre + (x % p).to_bytes(L, "big"), 0))
+            for name, call in (("Curve.from_der", lambda: C.Curve.from_der(params)), ("VerifyingKey.from_der", lambda: K.VerifyingKey.from_der(spki))):
+                o = vc.call(call)
+                if not o.returned and not isinstance(o.exc, allowed):
+                    bad.append((p, name, repr(o.exc)))
+    vc.prove("non-prime-field=>accepted-as-given-or-a-documented-error", not bad, repr(bad[:4]))
